@@ -4,7 +4,7 @@ REFLECT = "Go reflect / runtime semantics as specified in the model (DESIGN.md 3
 
 PROPS = {
     "C03": {
-        "gens": ["Prec", "ParserGen", "Grammar", "LexFlow"],
+        "gens": ["Prec", "ParserGen", "Grammar", "LexFlow", "Inventory"],
         "lean": "Anko.Props.C03",
         "streams": [{"name": "parse", "n_quick": 3000, "n_thorough": 60000}],
         "trusted": ["goyacc and its LALR driver (the compiled parser is compared with the table-driven spelling, not modelled)",
@@ -17,7 +17,7 @@ PROPS = {
                     "float literals aside, string literals are proved at the scanner level (string_literal_denotes_its_text: escape then scan is the identity, any text); raw strings: differential"],
     },
     "C01": {
-        "gens": ["Recover", "RunFlow", "ExprFlow", "ContFlow", "ProvFlow", "ConvFlow", "BindFlow", "ToXFlow", "ChanFlow", "SingleStmtFlow", "ImportFlow", "CallFlow", "StmtFlow", "LexFlow", "EnvFlow"],
+        "gens": ["Recover", "RunFlow", "ExprFlow", "ContFlow", "ProvFlow", "ConvFlow", "BindFlow", "ToXFlow", "ChanFlow", "SingleStmtFlow", "ImportFlow", "CallFlow", "StmtFlow", "LexFlow", "EnvFlow", "Inventory"],
         "lean": "Anko.Props.C01",
         "streams": [{"name": "nopanic", "n_quick": 1500, "n_thorough": 60000, "model": False}],
         "trusted": ["the specification of when Go's reflect operations panic (Raw.* in lean/Anko/Props/C01.lean)",
@@ -29,7 +29,7 @@ PROPS = {
                     "wrappers, other streams' no-panic oracles); the theorems cover the guard -> precondition implications of the modelled operations and the containment of the listed ones"],
     },
     "C11": {
-        "gens": ["ConvFlow", "CallFlow", "BindFlow"],
+        "gens": ["ConvFlow", "CallFlow", "BindFlow", "Inventory"],
         "lean": "Anko.Props.C11",
         "streams": [{"name": "goconv", "n_quick": 600, "n_thorough": 12000}],
         "trusted": ["the conversion model lean/Anko/Model/Conv.lean mirrors convertReflectValueToType (validated each run: every value of the pool x every parameter type inside the "
@@ -43,7 +43,7 @@ PROPS = {
                     "spread theorems over the interpreter model; methods, fields, callbacks and identity are oracle-only"],
     },
     "C10": {
-        "gens": ["ContFlow", "ProvFlow", "ConvFlow"],
+        "gens": ["ContFlow", "ProvFlow", "ConvFlow", "Inventory"],
         "lean": "Anko.Props.C10",
         "streams": [{"name": "cont", "n_quick": 1500, "n_thorough": 30000}],
         "trusted": ["the heap model lean/Anko/Model/Cont.lean mirrors the container code paths of vm/*.go (validated each run: every statement result and the final contents, "
@@ -56,7 +56,7 @@ PROPS = {
                     "the declared type) and by the conversion theorems of C11, not by the heap model"],
     },
     "C16": {
-        "gens": ["ChanOps", "ChanFlow", "StmtFlow", "CallFlow"],
+        "gens": ["ChanOps", "ChanFlow", "StmtFlow", "CallFlow", "Inventory"],
         "lean": "Anko.Props.C16",
         "streams": [{"name": "chan", "n_quick": 1200, "n_thorough": 12000}],
         "trusted": ["Go's channel implementation and scheduler realise the FIFO-buffer specification of lean/Anko/Model/Chan.lean (capacity, closed flag, rendezvous for capacity 0)",
@@ -69,7 +69,7 @@ PROPS = {
                     "element conversion on send is checked differentially (templates) only"],
     },
     "C15": {
-        "gens": ["ParserGen", "Lexer", "LexFlow", "Grammar"],
+        "gens": ["ParserGen", "Lexer", "LexFlow", "Grammar", "Inventory"],
         "lean": "Anko.Props.C15",
         "streams": [{"name": "lex", "n_quick": 2500, "n_thorough": 50000}],
         "trusted": ["goyacc and its LALR driver (the generated parser is exercised, not modelled)",
@@ -82,7 +82,7 @@ PROPS = {
                     "value-stack slots) are decided by the oracle stream only"],
     },
     "C13": {
-        "gens": ["EnvLocks", "EnvFlow"],
+        "gens": ["EnvLocks", "EnvFlow", "Inventory"],
         "lean": "Anko.Props.C13",
         "streams": [{"name": "envconc", "n_quick": 300, "n_thorough": 3000, "model": False, "race": True,
                      "race_n_quick": 60, "race_n_thorough": 600}],
@@ -96,7 +96,7 @@ PROPS = {
                     "scheduler (go build -overlay) is not built - real concurrent runs are checked against all sequential orders instead"],
     },
     "C12": {
-        "gens": ["EnvFlow"],
+        "gens": ["EnvFlow", "Inventory"],
         "lean": "Anko.Props.C12",
         "streams": [{"name": "envapi", "n_quick": 1500, "n_thorough": 30000}],
         "trusted": ["the heap-of-scopes model lean/Anko/Model/EnvApi.lean mirrors env/*.go (validated each run: every return value of every call and the full final "
@@ -105,7 +105,7 @@ PROPS = {
                         "DeepCopy is excluded from error_leaves_heap_unchanged (it cannot fail on a heap with valid parent links)"],
     },
     "C20": {
-        "gens": ["ProvFlow", "ContFlow", "ExprFlow", "ToXFlow", "CallFlow"],
+        "gens": ["ProvFlow", "ContFlow", "ExprFlow", "ToXFlow", "CallFlow", "Inventory"],
         "lean": "Anko.Props.C20",
         "streams": [{"name": "prov", "n_quick": 100, "n_thorough": 100},
                     {"name": "ops", "n_quick": 1500, "n_thorough": 30000},
@@ -116,7 +116,7 @@ PROPS = {
         "partial": ["the whole-evaluator theorem (interface_flag_is_unobservable) is about the model: two provenance policies through all 28 functions of the evaluator; Go values the model has no constructor for (typed slices, pointers, channels, structs) are covered by the prov stream only"],
     },
     "C14": {
-        "gens": ["AstWrites", "ImportFlow", "CallFlow", "ExprFlow", "BindFlow", "RunFlow"],
+        "gens": ["AstWrites", "ImportFlow", "CallFlow", "ExprFlow", "BindFlow", "RunFlow", "Inventory"],
         "lean": "Anko.Props.C14",
         "streams": [{"name": "isolation", "n_quick": 400, "n_thorough": 6000, "model": False, "race": True,
                      "race_n_quick": 80, "race_n_thorough": 1200},
@@ -127,7 +127,7 @@ PROPS = {
                         "writes through reflection or unsafe are not seen by the extractor; the reflection dump of the tree before/after every run covers them differentially"],
     },
     "C02": {
-        "gens": ["ChanOps", "RunFlow", "SingleStmtFlow", "ChanFlow", "StmtFlow", "CallFlow", "BindFlow", "ConvFlow", "CoreFlow"],
+        "gens": ["ChanOps", "RunFlow", "SingleStmtFlow", "ChanFlow", "StmtFlow", "CallFlow", "BindFlow", "ConvFlow", "CoreFlow", "Inventory"],
         "lean": "Anko.Props.C02",
         "streams": [{"name": "cancel", "n_quick": 150, "n_thorough": 1500}],
         "trusted": ["the interpreter model mirrors every ctx.Done() poll of vm/*.go on fragment F0 (validated each run: the counting context cancels the real "
@@ -140,7 +140,7 @@ PROPS = {
                     "*_iteration_after_cancel, cancel_is_sticky); the remaining work is the expression in progress"],
     },
     "C07": {
-        "gens": ["Operators", "CallFlow", "ExprFlow", "ContFlow", "SingleStmtFlow", "BindFlow"],
+        "gens": ["Operators", "CallFlow", "ExprFlow", "ContFlow", "SingleStmtFlow", "BindFlow", "Inventory"],
         "lean": "Anko.Props.C07",
         "streams": [{"name": "order", "n_quick": 2500, "n_thorough": 40000},
                     {"name": "vm", "n_quick": 2000, "n_thorough": 40000}],
@@ -155,7 +155,7 @@ PROPS = {
                     "x op= e / x++ evaluate the operands of x twice by construction of the parser (documented exception)"],
     },
     "C09": {
-        "gens": ["StmtFlow", "SingleStmtFlow", "RunFlow", "BindFlow", "CallFlow"],
+        "gens": ["StmtFlow", "SingleStmtFlow", "RunFlow", "BindFlow", "CallFlow", "Inventory"],
         "lean": "Anko.Props.C09",
         "streams": [{"name": "errors", "n_quick": 2500, "n_thorough": 40000},
                     {"name": "vm", "n_quick": 2000, "n_thorough": 40000}],
@@ -164,7 +164,7 @@ PROPS = {
         "assumptions": ["fragment F0", "`return` is not placed inside try blocks (finding #13 belongs to C08)"],
     },
     "C08": {
-        "gens": ["StmtFlow", "SingleStmtFlow", "ProvFlow", "ToXFlow"],
+        "gens": ["StmtFlow", "SingleStmtFlow", "ProvFlow", "ToXFlow", "Inventory"],
         "lean": "Anko.Props.C08",
         "streams": [{"name": "control", "n_quick": 2500, "n_thorough": 40000},
                     {"name": "vm", "n_quick": 2000, "n_thorough": 40000}],
@@ -176,7 +176,7 @@ PROPS = {
                     "cfor_consumes_break_continue: without init, with a var / assignment init (the forms the grammar admits) and with any init that does not itself signal"],
     },
     "C04": {
-        "gens": ["ScopeFlow", "BindFlow", "EnvFlow", "StmtFlow", "CallFlow", "SingleStmtFlow"],
+        "gens": ["ScopeFlow", "BindFlow", "EnvFlow", "StmtFlow", "CallFlow", "SingleStmtFlow", "Inventory"],
         "lean": "Anko.Props.C04",
         "streams": [{"name": "scope", "n_quick": 100, "n_thorough": 100},
                     {"name": "vm", "n_quick": 3000, "n_thorough": 60000}],
@@ -188,7 +188,7 @@ PROPS = {
         "partial": ["fresh_scope_per_call is stated for the allocation step (newScope_fresh); along whole runs parent_links_never_change / scope_ids_never_reused / closures_are_immutable (Proofs/EvalMono) are the global theorems"],
     },
     "C19": {
-        "gens": ["Packages", "CoreFlow", "ToXFlow", "ContFlow"],
+        "gens": ["Packages", "CoreFlow", "ToXFlow", "ContFlow", "Inventory"],
         "lean": "Anko.Props.C19",
         "streams": [{"name": "builtins", "n_quick": 2000, "n_thorough": 40000}],
         "trusted": ["FOps instance of the driver (IEEE binary64)", "strconv outside the model's exact domain is `unsupported`",
@@ -198,7 +198,7 @@ PROPS = {
         "partial": ["toRune/toChar/to*Slice: oracle only, no theorem"],
     },
     "C18": {
-        "gens": ["Cli", "CliFlow", "CoreFlow"],
+        "gens": ["Cli", "CliFlow", "CoreFlow", "Inventory"],
         "lean": "Anko.Props.C18",
         "build_cli": True,
         "streams": [{"name": "cli", "n_quick": 250, "n_thorough": 3000}],
@@ -206,7 +206,7 @@ PROPS = {
         "assumptions": ["the decision structure of runNonInteractive has the canonical shape the extractor recognises (else: broken tie)"],
     },
     "C06": {
-        "gens": ["EqualFlow"],
+        "gens": ["EqualFlow", "Inventory", "StmtFlow", "ExprFlow"],
         "lean": "Anko.Props.C06",
         "streams": [{"name": "eq", "n_quick": 3000, "n_thorough": 3000}],
         "trusted": ["FOps instance of the driver = Lean Float = IEEE binary64 = Go float64",
@@ -216,7 +216,7 @@ PROPS = {
                         "error values and environments as operands of == are outside the model"],
     },
     "C05": {
-        "gens": ["Cache", "Operators", "ToXFlow", "ProvFlow"],
+        "gens": ["Cache", "Operators", "ToXFlow", "ProvFlow", "Inventory"],
         "lean": "Anko.Props.C05",
         "streams": [{"name": "ops", "n_quick": 4000, "n_thorough": 60000}],
         "trusted": ["FOps instance of the driver = Lean Float = IEEE binary64 = Go float64 on amd64",
@@ -225,7 +225,7 @@ PROPS = {
                         "string*n beyond 64 KiB and float->int64 outside the exactly converted range are outside the model (resource class / implementation-defined in Go)"],
     },
     "C17": {
-        "gens": ["AstSchema", "Walker"],
+        "gens": ["AstSchema", "Walker", "Inventory"],
         "lean": "Anko.Props.C17",
         "streams": [{"name": "walk", "n_quick": 1500, "n_thorough": 30000}],
         "trusted": ["reflection-based AST serialiser tools/internal/astser (independent of walker and extractor)"],
